@@ -4,7 +4,7 @@ from vlint.cfg import CFG
 from vlint.facts import callee_of, resolved, AnchorMissing
 from vlint.gates import field_of, root_of
 from vlint.paths import Summariser, ret_okness
-from vlint.terms import show, subterms
+from vlint.terms import Sym, show, subterms
 from vlint.util import must_of, sites, field_writes
 from . import daemon
 
@@ -272,6 +272,16 @@ def run_on(fb, chk, tag=""):
                         and (st["rv"].get("adt") or "").endswith("vhost_user::Error"):
                     nsb += 1
                     role_ok = (g.trait or "").endswith("From") or g.name == "check_state"
+                    if not role_ok:
+                        # the sticky-error accessor expanded into its caller: the payload is built from the endpoint's recorded
+                        # `error` (an errno kept from an earlier socket failure)
+                        try:
+                            gs = Sym(g, fb)
+                            pv = gs.rvalue(st["rv"])
+                            role_ok = any(x[0] == "field" and x[2] == "error" and any(y[0] == "param" and y[1] == 1 for y in subterms(x))
+                                          for x in subterms(pv))
+                        except Exception:
+                            role_ok = False
                     chk.check(role_ok, "H3", "%ssocket-broken-source:%s" % (tag, g.short), "SocketBroken built from a socket errno / the sticky error only",
                               "%s reports Error::SocketBroken for a condition that is not a socket error: VhostUserDaemon::wait() maps this "
                               "class to Ok even without a shutdown request, so the condition (e.g. a peer disconnect inside a request body) "
